@@ -328,8 +328,20 @@ open CC.Fmt CC.Gen.Fmt
 
 /-! ## saturation and zero suppression -/
 
-/-- `FloatPrecision.is_inf` is exactly `exponent > max_exp` -/
-theorem C18_is_inf_iff (e m : ℤ) : fp_is_inf e m = true ↔ m < e := by simp [fp_is_inf]
+/-- `FloatPrecision.is_inf` is exactly `value != 0 and exponent > max_exp` -/
+theorem C18_is_inf_iff (v : ℚ) (e m : ℤ) : fp_is_inf v e m = true ↔ (v ≠ 0 ∧ m < e) := by
+  unfold fp_is_inf; by_cases h : v = 0 <;> simp [h]
+
+/-- **C18_zero_never_infinity** — zero is never saturated: for every configuration the value 0
+is not `is_inf`, so its text is a finite number (formerly refuted: a table whose exponents are
+all negative rendered a zero part as `∞`; repaired in /repo f0e8a34). -/
+theorem C18_zero_never_infinity (c : SFCfg) : (c.value3 0).isInf = false := by
+  unfold F3.isInf fp_is_inf SFCfg.value3; simp
+
+/-- the former failing input (zero real part, farad table, precision 5) now reads as zero -/
+example : ({ unit := ['F'], precision := 5, usePrefix := true, table := print_capacitance_call0.table } : SCCfg).str
+    0 (54 / 10000000000) 0 0 = ['0', '.', '0', '0', '0', '0', '0', 'e', '6', 'm', 'F'] := by
+  decide +kernel
 
 /-- `FloatPrecision.is_zero` is exactly `value == 0 or exponent < min_exp` -/
 theorem C18_is_zero_iff (v : ℚ) (e m : ℤ) : fp_is_zero v e m = true ↔ (v = 0 ∨ e < m) := by
@@ -354,9 +366,19 @@ theorem halfUnit_carry {v : ℚ} {p : ℕ} {e : ℤ} (hp : 1 ≤ p)
 value beyond the representable range (`|v| ≥ 10^(max_exp + p)`) and only for values that
 reach that bound after rounding to `p` digits. -/
 theorem C18_saturate (v : ℚ) (p : ℕ) (e maxExp : ℤ) (hp : 1 ≤ p) (h : ExpRegular v p e) :
-    (Beyond v p maxExp → fp_is_inf e maxExp = true) ∧ (fp_is_inf e maxExp = true → BeyondRounded v p maxExp) := by
+    (Beyond v p maxExp → fp_is_inf v e maxExp = true) ∧ (fp_is_inf v e maxExp = true → BeyondRounded v p maxExp) := by
+  have hv0 : v ≠ 0 := by
+    have hp' : (1 : ℤ) ≤ p := by exact_mod_cast hp
+    rcases h with ⟨h1, _⟩ | ⟨h1, _⟩
+    · have := pow10_pos (e + p - 1)
+      exact abs_pos.mp (lt_of_lt_of_le this h1)
+    · have h3 : pow10 (e - 1) ≤ pow10 (e + p - 1) := pow10_le_pow10 (by omega)
+      have := pow10_pos (e - 1)
+      exact abs_pos.mp (by linarith)
+  have key : fp_is_inf v e maxExp = true ↔ maxExp < e := by
+    rw [C18_is_inf_iff]; exact ⟨fun h => h.2, fun h => ⟨hv0, h⟩⟩
   unfold Beyond BeyondRounded
-  rw [C18_is_inf_iff, qabs_eq_abs]
+  rw [key, qabs_eq_abs]
   have hu := halfUnit_nonneg v p
   rcases h with ⟨h1, h2⟩ | ⟨h1, h2⟩
   · constructor
@@ -592,13 +614,6 @@ out because `is_zero` compares the exponent of the *last* digit with `min_exp`
 theorem C18_complex_suppression_counterexample :
     printComplex (-4001 / 100000000) (8479 / 10000000) 0 0 ['A'] 4 false false = ['-', '4', '0', '.', '0', '1', 'u', 'A']
     ∧ printComplex (50 / 1000000) (80 / 1000000) 0 0 ['A'] 3 false false = ['5', '0', '.', '0', 'u', 'A'] := by
-  decide +kernel
-
-/-- **finding** — a zero real part next to a suppressed imaginary part is displayed as `∞`
-when every exponent of the prefix table is negative. -/
-theorem C18_zero_displayed_as_infinity :
-    ({ unit := ['F'], precision := 5, usePrefix := true, table := print_capacitance_call0.table } : SCCfg).str
-      0 (54 / 10000000000) 0 0 = ['∞'] := by
   decide +kernel
 
 end CC
